@@ -916,6 +916,36 @@ pub fn run(ctx: &mut Ctx) {
                     }
                 }
             }
+            // ... next to arguments whose defender sets multiply to 32 or more (k attackers, each attacked by
+            // some of d shared defenders), at ids below and above the wide ones, and sometimes one argument
+            // attacking every attacker of a wide one
+            for _ in 0..rng.range(0, 3) {
+                let sizes: &[usize] = match rng.below(4) {
+                    0 => &[4, 4, 2],
+                    1 => &[2, 2, 2, 2, 2],
+                    2 => &[6, 6],
+                    _ => &[3, 11],
+                };
+                let t = rng.below(n);
+                let pool: Vec<usize> = (0..11).map(|_| rng.below(n)).collect();
+                for sz in sizes.iter() {
+                    let b = rng.below(n);
+                    att.push((b, t));
+                    for d in pool.iter().take(*sz) {
+                        att.push((*d, b));
+                    }
+                }
+            }
+            if rng.pct(40) && !att.is_empty() {
+                let (_, t) = att[0];
+                let u = rng.below(n);
+                let attackers: Vec<usize> = att.iter().filter(|(_, b)| *b == t).map(|(a, _)| *a).collect();
+                for a in attackers {
+                    if a != u {
+                        att.push((u, a));
+                    }
+                }
+            }
             for _ in 0..rng.range(0, 25) {
                 att.push((rng.below(n), rng.below(n)));
             }
